@@ -129,6 +129,49 @@ ctor_harness! {
     array_try_from_iter__map_int_decl_map_int_array_int = try_from_iter_2<5, 5, 2>;
 }
 
+/// One element (recursion depth of the element drop glue bounded by unwind(2)).
+fn try_from_vec_1<const DECL: usize, const K0: usize>() {
+    let x0: i64 = kani::any();
+    let v = vec![elem::<K0>(x0)];
+    let r = Array::try_from_vec(ty::<DECL>(), v);
+    let ok0 = ty::<K0>() == ty::<DECL>();
+    match r {
+        Ok(a) => {
+            assert!(ok0, "an array with an element of another type must be refused");
+            assert!(a.value_type() == ty::<DECL>() && a.len() == 1);
+            assert!(matches!(a.get(0), Some(e) if is_elem::<K0>(e, x0)), "the element is kept");
+            std::mem::forget(a);
+        }
+        Err(e) => {
+            assert!(!ok0, "a homogeneous array must be accepted");
+            assert!(e.actual == ty::<K0>(), "the error names the offending element's type");
+            std::mem::forget(e);
+        }
+    }
+    kani::cover!(true);
+}
+
+#[kani::proof]
+#[kani::unwind(2)]
+#[kani::stub(<crate::types::ExpectedTypeList as std::convert::From<crate::types::Type>>::from, crate::types::verif_kani::c08::expected_type_list_from_type__contract)]
+fn array_try_from_vec_1__array_int_decl_array_bytes_elem() {
+    try_from_vec_1::<2, 3>()
+}
+
+#[kani::proof]
+#[kani::unwind(2)]
+#[kani::stub(<crate::types::ExpectedTypeList as std::convert::From<crate::types::Type>>::from, crate::types::verif_kani::c08::expected_type_list_from_type__contract)]
+fn array_try_from_vec_1__array_int_decl_array_int_elem() {
+    try_from_vec_1::<2, 2>()
+}
+
+#[kani::proof]
+#[kani::unwind(2)]
+#[kani::stub(<crate::types::ExpectedTypeList as std::convert::From<crate::types::Type>>::from, crate::types::verif_kani::c08::expected_type_list_from_type__contract)]
+fn array_try_from_vec_1__array_int_decl_array_array_int_elem() {
+    try_from_vec_1::<2, 4>()
+}
+
 /// No elements: always Ok, of the declared type, for both constructors.
 #[kani::proof]
 #[kani::unwind(4)]
